@@ -41,7 +41,7 @@ def piece_sequences(piece, ch=0):
     seqs = []
     for i, notes in enumerate(piece["tracks"]):
         nt = [(ch, n["p"], n["s"], n["e"], n["v"]) for n in notes]
-        extra = [P.ts(s[0], s[1], s[2]) for s in piece["sigs"]] if i == 0 else []
+        extra = [P.ts(s[0], s[1], s[2]) for s in piece["sigs"] + piece.get("midsigs", [])] if i == 0 else []
         dur = piece["end"] if piece["cap"] else None
         ms = P.notes_to_abs(nt, extra, dur)
         seqs.append(P.seq_from_abs(ms) if (i + len(notes)) % 2 == 0 else P.seq_from_rel(P.abs_to_rel(ms)))
@@ -611,6 +611,14 @@ def run_c03(ctx, g):
                     cases.append((len(cases), c, pc, cuts, "split"))
         if not ctx.thorough and len(cases) > 5000:
             cases = rng.sample(cases, 5000)
+        # a time-signature message in the middle of a bar is legal input (tokenise skips it); it must not leak into
+        # the carried state: the model's pieces of >= 3 bars with such a message, split route, every partition
+        for k, pc in enumerate(g["pieces"]):
+            if pc["end"] < 264 or pc["sigs"] != [[96, 3, 4], [168, 4, 4]] or k % (1 if ctx.thorough else 2):
+                continue
+            mid = dict(pc, midsigs=[[36, 2, 4]] if k % 4 < 2 else [[120, 5, 4]])
+            for cuts in ([96], [168], [96, 168]):
+                cases.append((len(cases), cfgs[k % len(cfgs)], mid, cuts, "split"))
         # a configuration in which a velocity-bin value (24 with 8 bins) coincides with a note value: running values
         # carried under a wrong key only show then.  The model's pieces with quiet first notes, every partition.
         collide = dict(cfgs[0], nbins=8, running=True, fuseVal=False, fuseVel=False, fuseTrk=True)
